@@ -50,6 +50,8 @@ enum Tok {
     BitFlip,
     Truncated,
     Extended,
+    /// computed by the sender from the public token construction with a degenerate secret (never issued by anybody)
+    Guessed(u8),
 }
 
 #[derive(Clone, Copy, Debug, PartialEq, Eq, Hash)]
@@ -115,6 +117,10 @@ fn alphabet() -> Vec<Sym> {
         s(A, sgn, Tok::Own),
         s(A, Signed { dt_us: 0, bad_sig: true }, Tok::Own),
         s(A, sgn, Tok::Random),
+        s(A, imm, Tok::Guessed(0)),
+        s(B, mutv, Tok::Guessed(1)),
+        s(A, ann, Tok::Guessed(2)),
+        s(A2, sgn, Tok::Guessed(0)),
         s(D, imm, Tok::Own),
         s(E, imm, Tok::Random),
         s(E, ReadPeers, Tok::Own),
@@ -224,6 +230,14 @@ fn token_bytes(env: &Env, who: usize, tok: Tok, rng: &mut Rng) -> Vec<u8> {
             let mut t = own(who);
             t.push(0);
             t
+        }
+        Tok::Guessed(k) => {
+            let t = guessed_token(env.cl[who].addr, k);
+            if t == own(who) {
+                vec![t[0] ^ 1, t[1], t[2], t[3]]
+            } else {
+                t
+            }
         }
     }
 }
@@ -627,7 +641,7 @@ pub fn run(a: &Args) -> Report {
         report_panics(&mut r, old.fx.finish());
     }
     // random longer histories, alternating filtered / unfiltered servers
-    let n_random = (if a.quick() { 800 } else { 24_000 }) / a.nshards.max(1);
+    let n_random = (if a.quick() { 6_400 } else { 24_000 }) / a.nshards.max(1);
     let mut env = new_env(mix(a.seed, 0x77), false);
     for i in 0..n_random {
         if i % 64 == 63 {
@@ -660,7 +674,7 @@ fn aged(r: &mut Report, a: &Args, rng: &mut Rng) {
     ];
     // (piece, count): the old token reaches piece * count seconds, with traffic after every piece
     let ages: [(u32, u32); 14] = [(1, 1), (240, 1), (299, 1), (61, 5), (120, 4), (601, 1), (120, 8), (240, 5), (61, 13), (299, 5), (30, 25), (59, 13), (360, 4), (1500, 2)];
-    let n_hist = (if a.quick() { 96 } else { 1920 }) / a.nshards.max(1);
+    let n_hist = (if a.quick() { 384 } else { 1920 }) / a.nshards.max(1);
     let mut env = new_env(mix(a.seed, 0xa6ed + a.shard), false);
     for i in 0..n_hist {
         if i % 16 == 15 {
@@ -675,7 +689,7 @@ fn aged(r: &mut Report, a: &Args, rng: &mut Rng) {
             match pattern {
                 0 => {}
                 1 => hist.push(s(B, if rng.below(2) == 0 { ReadPeers } else { ReadGetMut }, Tok::Own)),
-                2 => hist.push(s(B, *rng.pick(&writes), if rng.below(2) == 0 { Tok::Own } else { Tok::Random })),
+                2 => hist.push(s(B, *rng.pick(&writes), match rng.below(5) { 0 | 1 => Tok::Own, 2 | 3 => Tok::Random, _ => Tok::Guessed(rng.below(6) as u8) })),
                 _ => {
                     let alpha = alphabet();
                     for _ in 0..1 + rng.usize(3) {
